@@ -321,9 +321,15 @@ class Explorer:
 
     def _expand(self, hist):
         """Run in a worker: all successors of one history."""
-        st = self.build(hist)
+        try:
+            st = self.build(hist)
+            oplist = list(self.ops(st))
+        except Exception as e:
+            return [(None, None, [dict(Fail(key='exception:%s' % type(e).__name__,
+                                            msg='unexpected %s while rebuilding an explored state: %s' % (type(e).__name__, e),
+                                            traceback=traceback.format_exc(limit=6)))])]
         succ = []
-        for op in self.ops(st):
+        for op in oplist:
             h2 = hist + [op]
             try:
                 s2 = self.build(h2)
@@ -350,11 +356,19 @@ class Explorer:
         chk = self.chk
         if os.environ.get('VERIF_REPLAY'):
             return chk.replay(os.environ['VERIF_REPLAY'])
-        st0 = self.build([])
-        f0 = self.check([], st0) or []
+        try:
+            st0 = self.build([])
+            f0 = self.check([], st0) or []
+            c0 = self.canon(st0)
+        except Exception as e:   # a broken initial state is a violation, not a crash of the explorer
+            chk.record(self.name, {'history': []},
+                       [Fail(key='exception:%s' % type(e).__name__, msg='unexpected %s in the initial state: %s' % (type(e).__name__, e),
+                             traceback=traceback.format_exc(limit=6))])
+            chk.counts[self.name] += 1
+            return dict(states=1, transitions=1, traces_validated_against_impl=1, max_depth_completed=0)
         if f0:
             chk.record(self.name, {'history': []}, f0)
-        seen = {self.canon(st0)}
+        seen = {c0}
         frontier = [[]]
         states, transitions, depth_done, traces = 1, 0, 0, 1
         refusals = 0
